@@ -31,13 +31,16 @@ FUNCTIONS = [f'{c}.copy' for c in CLASSES] + ['CircuitCompositeOperation.copy', 
                                               'RegistryAcquisitionStrategy.copy', 'DeclarativeCircuit.add_sub_circuit', 'CircuitCompositeOperation.repeat']
 BOUNDS = {'quick': "each of the 26 classes as 2nd step of a 3-step circuit [Wait a; X; Wait z FOLLOWED_BY X], X placed implicitly / FOLLOWED_BY / JOINED_START / "
                    "JOINED_END a, every constructor field set to a non-default (symbolic where numeric) value; copy by nesting and by copy(); "
-                   "mutations afterwards: add to original, add to the circuit holding the copy, apply_modifiers on a repeated original",
+                   "mutations afterwards: add to original, add to the circuit holding the copy, apply_modifiers on a repeated original; "
+                   "5 unrolled circuits (repeated blocks of 2..3 parallel operations, counts 2..3, registry durations) copied by nesting and by copy(), "
+                   "group links compared member by member, schedules compared again after every registry duration got a fresh symbolic value",
           'thorough': "as quick, additionally X as 1st and 3rd step, nesting depth 2 (copy of a copy), repetition count 2 on the copied circuit, all 4 channels for the channel-parameterised classes"}
 OUTSIDE = ["operation classes defined by users", "DynamicDurationStrategy callables", "relations to operations outside the copied circuit"]
 ASSUMPTIONS = ["memo caches start empty", "hash(Sym) constant / == decided by the solver",
                "Barrier / CoordinateShiftOperation get their relation through the public relation_link setter (their constructors take none)"]
 REQUIRED_REACH = ['C05.length', 'C05.class', 'C05.fields', 'C05.channels', 'C05.duration', 'C05.relation_type', 'C05.relation_target', 'C05.schedule',
-                  'C05.acquisition', 'C05.independent.original_mutated', 'C05.independent.copy_mutated', 'C05.independent.unrolled', 'C05.distinct_objects']
+                  'C05.acquisition', 'C05.independent.original_mutated', 'C05.independent.copy_mutated', 'C05.independent.unrolled', 'C05.distinct_objects',
+                  'C05.relation_group', 'C05.schedule.after_duration_change']
 EXHAUSTIVE = {'quick': True, 'thorough': True}
 JOB_OPTS = {'quick': dict(max_paths=3000, max_seconds=300), 'thorough': dict(max_paths=20000, max_seconds=900)}
 
@@ -57,7 +60,70 @@ def jobs(tier, seed):
                 for ch in cs:
                     for how in (['nest', 'copy'] if tier == 'quick' else ['nest', 'copy', 'nest2', 'rep2']):
                         out.append({'cls': cls, 'rel': rel, 'pos': pos, 'ch': ch, 'how': how})
+    # copies of *unrolled* circuits (their operations are chained by MultiRelationLink groups), durations looked up in a registry
+    # whose values change after the copy was made
+    for prog in UNROLLED:
+        for how in ('nest', 'copy'):
+            out.append({'unrolled': prog, 'how': how})
     return out
+
+
+def _st(k, rel=None):
+    return {'k': k, 'rel': rel}
+
+
+UNROLLED = [
+    {'steps': [_st(['S', {'steps': [_st(['R', 0, 'ALL']), _st(['R', 1, 'ALL'])], 'rep': 2}])]},
+    {'steps': [_st(['S', {'steps': [_st(['R', 0, 'ALL']), _st(['R', 1, 'ALL']), _st(['W', 2, 'ALL'])], 'rep': 3}])]},
+    {'steps': [_st(['W', 0, 'ALL']), _st(['S', {'steps': [_st(['R', 0, 'ALL']), _st(['R', 1, 'MW'])], 'rep': 2}]), _st(['R', 1, 'ALL'])]},
+    {'steps': [_st(['R', 0, 'ALL']), _st(['R', 1, 'ALL'])], 'rep': 2},
+    {'steps': [_st(['S', {'steps': [_st(['R', 0, 'ALL']), _st(['G', 'Rx180', [1]]), _st(['R', 0, 'MW'], ['S', 1])], 'rep': 2}])]},
+]
+
+
+def group_indices(link, ops):
+    """Listing positions of the members of a MultiRelationLink group (a nested block counts by the positions of its operations)."""
+    out = []
+    for m in getattr(link, '_reference_nodes', None) or []:
+        if isinstance(m, CircuitCompositeOperation):
+            inner = m.decomposed_operations()
+            out.append(sorted(k for k, o in enumerate(ops) if any(o is x for x in inner)))
+        else:
+            out.append([k for k, o in enumerate(ops) if o is m])
+    return sorted(out)
+
+
+def run_unrolled(ctx, params):
+    g = cm.Globals(ctx)
+    how = params['how']
+    with g.override():
+        built = cm.build(ctx, params['unrolled'])
+        c1 = built.circuit.apply_modifiers()
+        ops1 = c1.operations
+        if how == 'copy':
+            copied = c1.circuit_structure.copy()
+            lister = copied.decomposed_operations
+        else:
+            c2 = DeclarativeCircuit()
+            copied = c2.add(c1)
+            lister = lambda: c2.operations   # noqa: E731
+        ops2 = lister()
+        info0 = {'how': how, 'unrolled': True}
+        ctx.check('C05.length', len(ops1) == len(ops2), dict(info0, original=[type(o).__name__ for o in ops1], copy=[type(o).__name__ for o in ops2]))
+        if len(ops1) != len(ops2):
+            return
+        t1, t2 = observe(ops1), observe(ops2)
+        ctx.check('C05.schedule', same_times(t1, t2), dict(info0, original=t1, copy=t2))
+        for i, (a, b) in enumerate(zip(ops1, ops2)):
+            la, lb = a.relation_link, b.relation_link
+            ga, gb = group_indices(la, ops1), group_indices(lb, ops2)
+            ctx.check('C05.relation_group', type(la) is type(lb) and ga == gb,
+                      dict(info0, index=i, original_link=type(la).__name__, copy_link=type(lb).__name__, original_group=ga, copy_group=gb))
+        # the durations change afterwards (shared registry): copy and original keep the same schedule
+        for key in built.reg_keys:
+            built.registry.set_registry_at(key, ctx.real('w_' + key, lo=0))
+        t1b, t2b = observe(c1.operations), observe(lister())
+        ctx.check('C05.schedule.after_duration_change', same_times(t1b, t2b), dict(info0, original=t1b, copy=t2b))
 
 
 def make_op(ctx, cls, circuit, relation, ch, tag='x'):
@@ -147,6 +213,8 @@ def same_times(t1, t2):
 
 
 def run(ctx, params):
+    if 'unrolled' in params:
+        return run_unrolled(ctx, params)
     g = cm.Globals(ctx)
     how = params['how']
     with g.override():
